@@ -288,6 +288,9 @@ def gen_values_cluster(rng, cfg):
         k = newkey()
         r = weird_bytes(rng, 5).hex() if t == "string" else str(int_random(rng, t))
         item(k, t, r)
+    # the keys as iterators hand them out (over the wire and in process): identical bytes, CR / LF / NUL included
+    ops.append(["keys", "cc"])
+    ops.append(["keys", "non"])
     return {"kind": "cluster", "opts": dict(opts), "dmap": "d", "ops": ops, "_cfg": name}
 
 
@@ -459,6 +462,16 @@ def check_cluster(sc, obs):
                 return (i, "GETENTRY %s returned key %s, written %s" % (op[2], ob[2][:40], kx[:40]))
             if cur[2] is not None and bytes.fromhex(ob[3]) != cur[2]:
                 return (i, "GETENTRY %s returned %r, written %r" % (op[2], bytes.fromhex(ob[3])[:60], cur[2][:60]))
+        elif name == "keys":
+            if ob[1] != "nil":
+                return (i, "a full iteration through %s failed: %s" % (op[1], ob[1]))
+            exp = sorted(store)
+            got = sorted(ob[2] or [])
+            if got != exp:
+                miss = [k for k in exp if k not in got][:3]
+                extra = [k for k in got if k not in exp][:3]
+                return (i, "the iterator through %s hands out keys that were never written %s / misses stored keys %s" % (
+                    op[1], [bytes.fromhex(k)[:24] for k in extra], [bytes.fromhex(k)[:24] for k in miss]))
         elif name == "join":
             if ob[1] != "ok":
                 return None      # the environment: see discarded()
